@@ -78,6 +78,23 @@ func runC15(c *Ctx) {
 			}
 		}
 	}
+	// the same boundary lengths with multi-byte fill (the bound is in BYTES): 1-, 2-, 3- and 4-byte runes, Latin-1 bytes
+	for _, fill := range []string{"é", "€", "\U0001F600", "\xe9", "xé"} {
+		for _, p := range []string{"#", "&", "!ABCDE", "a", "~a"} {
+			for n := 44; n <= 56; n++ {
+				s := p
+				for len(s)+len(fill) <= n {
+					s += fill
+				}
+				for len(s) < n {
+					s += "x"
+				}
+				for _, rn := range all {
+					one(rn, s, "boundary-multibyte")
+				}
+			}
+		}
+	}
 	for _, s := range []string{"", "~", "~~", "~a", "a~", "?", "?a", "a?", "-a", "a-", "9a", "a9", ".a", "a.", "~.a", "~9", "!", "#", "##", "# ", "#,", "#:", "#\x07"} {
 		for _, rn := range all {
 			one(rn, s, "edge")
